@@ -555,6 +555,12 @@ func (k *Kernel) addProposedHeader(ctx context.Context, s *kState, ph tmconsensu
 		}
 
 		if mergedAny {
+			// The committing view's precommits changed,
+			// so its vote summary must be recalculated.
+			backfillVRV.VoteSummary.SetPrecommitPowers(
+				backfillVRV.ValidatorSet.Validators, backfillVRV.PrecommitProofs,
+			)
+
 			// We've updated the previous precommits, so the round store needs updated.
 			if err := k.rStore.OverwriteRoundPrecommitProofs(
 				ctx,
